@@ -980,15 +980,7 @@ fn script_call(by_sha: bool, i: usize, k: &[u8], v: &[u8]) -> Argv {
 fn server_commands(o: &GenOpts) -> BoxedStrategy<Argv> {
     let k = || gen::key(o);
     let sha = || (0usize..SCRIPTS.len() + 1).prop_map(|i| if i >= SCRIPTS.len() { sha_of(NEVER_LOADED) } else { sha_of(SCRIPTS[i]) });
-    let param = || {
-        prop_oneof![
-            Just(&b"hash-max-listpack-entries"[..]),
-            Just(&b"hash-max-listpack-value"[..]),
-            Just(&b"maxmemory"[..]),
-            Just(&b"hz"[..]),
-            Just(&b"no-such-parameter"[..]),
-        ]
-    };
+    let param = || config_param();
     prop_oneof![
         6 => (0usize..SCRIPTS.len(), k(), gen::value()).prop_map(|(i, k, v)| script_call(false, i, &k, &v)),
         8 => (0usize..SCRIPTS.len() + 1, k(), gen::value()).prop_map(|(i, k, v)| script_call(true, i, &k, &v)),
@@ -999,7 +991,7 @@ fn server_commands(o: &GenOpts) -> BoxedStrategy<Argv> {
             c
         }),
         4 => Just(a(&[b"SCRIPT", b"FLUSH"])),
-        3 => (param(), prop_oneof![Just(&b"1"[..]), Just(&b"64"[..]), Just(&b"yes"[..])]).prop_map(|(p, v)| a(&[b"CONFIG", b"SET", p, v])),
+        4 => (param(), config_value()).prop_map(|(p, v)| a(&[b"CONFIG", b"SET", p, &v])),
         3 => prop_oneof![param().boxed(), Just(&b"hash-max-*"[..]).boxed(), Just(&b"*max*"[..]).boxed()].prop_map(|p| a(&[b"CONFIG", b"GET", p])),
         1 => Just(a(&[b"CONFIG", b"RESETSTAT"])),
         1 => prop_oneof![Just(&b"0"[..]), Just(&b"1"[..]), Just(&b"16"[..])].prop_map(|d| a(&[b"SELECT", d])),
@@ -1013,7 +1005,7 @@ fn server_commands(o: &GenOpts) -> BoxedStrategy<Argv> {
             Just(a(&[b"CLIENT", b"SETNAME", b"c1"])),
             Just(a(&[b"CLIENT", b"INFO"])),
         ],
-        2 => (prop_oneof![Just(&b"ENCODING"[..]), Just(&b"REFCOUNT"[..]), Just(&b"IDLETIME"[..]), Just(&b"FREQ"[..])], k())
+        3 => (prop_oneof![4 => Just(&b"ENCODING"[..]), 1 => Just(&b"REFCOUNT"[..]), 1 => Just(&b"IDLETIME"[..]), 1 => Just(&b"FREQ"[..])], k())
             .prop_map(|(sub, k)| a(&[b"OBJECT", sub, &k])),
         1 => prop_oneof![
             Just(a(&[b"OBJECT", b"HELP"])),
@@ -1022,6 +1014,91 @@ fn server_commands(o: &GenOpts) -> BoxedStrategy<Argv> {
         ],
         1 => k().prop_map(|k| a(&[b"DEBUG", b"OBJECT", &k])),
     ]
+    .boxed()
+}
+
+/// Every parameter `ServerConfig::new` knows (src/redis/executor/config_ops.rs). On the unchanged
+/// tree no executor code reads any of them outside CONFIG GET, but each executor (= each shard)
+/// has its own copy and the key-less CONFIG SET reaches shard 0 only, so any reply that starts to
+/// depend on one of them becomes shard-count dependent.
+const CONFIG_PARAMS: &[&str] = &[
+    // first 10: thresholds that reply-producing code is most likely to honour
+    "set-max-listpack-entries", "hash-max-listpack-entries", "zset-max-listpack-entries", "set-max-intset-entries",
+    "list-max-listpack-size", "list-max-ziplist-size", "hash-max-listpack-value", "zset-max-listpack-value",
+    "list-compress-depth", "proto-max-bulk-len",
+    "maxmemory", "maxmemory-policy", "active-expire-enabled", "save", "appendonly", "rdbcompression", "hz", "dynamic-hz",
+    "timeout", "tcp-keepalive", "maxclients", "client-query-buffer-limit", "lua-time-limit", "lazyfree-lazy-eviction",
+    "lazyfree-lazy-expire", "lazyfree-lazy-server-del", "min-replicas-to-write", "replica-serve-stale-data",
+    "replica-read-only", "bind", "port", "databases", "loglevel", "logfile", "dir", "dbfilename", "requirepass",
+    "activedefrag", "no-appendfsync-on-rewrite", "slave-lazy-flush", "tracking-table-max-keys", "close-on-oom",
+    "repl-min-slaves-to-write", "latency-tracking", "close-files-after-invoked-defer", "slowlog-log-slower-than",
+    "slowlog-max-len", "lfu-log-factor", "lfu-decay-time", "no-such-parameter",
+];
+
+fn config_param() -> BoxedStrategy<&'static [u8]> {
+    prop_oneof![
+        3 => (0usize..10).prop_map(|i| CONFIG_PARAMS[i].as_bytes()),
+        2 => (0usize..CONFIG_PARAMS.len()).prop_map(|i| CONFIG_PARAMS[i].as_bytes()),
+    ]
+    .boxed()
+}
+
+fn config_value() -> BoxedStrategy<Vec<u8>> {
+    prop_oneof![
+        6 => (0u32..9).prop_map(|v| v.to_string().into_bytes()),
+        1 => Just(b"64".to_vec()),
+        1 => Just(b"-1".to_vec()),
+        1 => prop_oneof![Just(b"yes".to_vec()), Just(b"no".to_vec())],
+    ]
+    .boxed()
+}
+
+/// aimed at config-dependent replies: set a threshold-like parameter to a small value, build a
+/// value of 1..10 elements (or a short/long/integer string) on a generated key, then ask for
+/// everything that describes the value's representation, and read the parameter back
+fn config_probe(o: &GenOpts) -> BoxedStrategy<Vec<Argv>> {
+    (config_param(), 0u32..7, gen::key(o), 0u8..6, 1usize..11, any::<bool>()).prop_map(|(p, v, k, ty, m, set_first)| {
+        let set = a(&[b"CONFIG", b"SET", p, v.to_string().as_bytes()]);
+        let mut out = Vec::new();
+        if set_first {
+            out.push(set.clone());
+        }
+        out.push(a(&[b"DEL", &k]));
+        let members: Vec<&[u8]> = gen::MEMBER_POOL.iter().copied().take(m).collect();
+        let mut build: Argv = match ty {
+            0 => a(&[b"SADD", &k]),
+            1 => a(&[b"HSET", &k]),
+            2 => a(&[b"ZADD", &k]),
+            3 => a(&[b"RPUSH", &k]),
+            4 => a(&[b"SET", &k, b"12345"]),
+            _ => a(&[b"SET", &k, &vec![b'x'; 4 * m + 30]]),
+        };
+        if ty <= 3 {
+            for (i, mem) in members.iter().enumerate() {
+                match ty {
+                    1 => {
+                        build.push(mem.to_vec());
+                        build.push(b"v".to_vec());
+                    }
+                    2 => {
+                        build.push(i.to_string().into_bytes());
+                        build.push(mem.to_vec());
+                    }
+                    _ => build.push(mem.to_vec()),
+                }
+            }
+        }
+        out.push(build);
+        if !set_first {
+            out.push(set);
+        }
+        out.push(a(&[b"OBJECT", b"ENCODING", &k]));
+        out.push(a(&[b"DEBUG", b"OBJECT", &k]));
+        out.push(a(&[b"OBJECT", b"FREQ", &k]));
+        out.push(a(&[b"TYPE", &k]));
+        out.push(a(&[b"CONFIG", b"GET", p]));
+        out
+    })
     .boxed()
 }
 
@@ -1124,6 +1201,7 @@ fn step_strategy() -> BoxedStrategy<Vec<Step>> {
         40 => single.prop_map(|s| vec![s]),
         1 => ttl_probe,
         1 => script_probe(&o).prop_map(|cmds| cmds.into_iter().map(|argv| Step::Cmd { argv, path: Path::Generic }).collect()),
+        1 => config_probe(&o).prop_map(|cmds| cmds.into_iter().map(|argv| Step::Cmd { argv, path: Path::Generic }).collect()),
     ]
     .boxed()
 }
@@ -1246,6 +1324,7 @@ fn conn_case() -> BoxedStrategy<ConnCase> {
         2 => k().prop_map(|k| vec![a(&[b"EVAL", EVAL_INCR, b"1", &k])]),
         10 => server_commands(&o).prop_map(|c| vec![c]),
         2 => script_probe(&o),
+        2 => config_probe(&o),
     ]
     .boxed();
     const NS: &[usize] = &[2, 4, 8, 16, 64, 3];
